@@ -284,6 +284,8 @@ class DiscreteFactor(BaseFactor, StateNameMixin):
         max_possible_index = np.prod(self.cardinality) - 1
         if not all(i <= max_possible_index for i in index):
             raise IndexError("Index greater than max possible index")
+        if not all(i >= 0 for i in index):
+            raise IndexError("Index can't be negative")
 
         assignments = compat_fns.get_compute_backend().zeros(
             (len(index), len(self.scope())), dtype=int
